@@ -156,6 +156,10 @@ class Runner:
                     self.send(name, i)
                 elif op == 'T':
                     self.clocks[i['c']].tempo = i['a'] / i['b']
+                elif op == 'ET':
+                    self.clocks[i['c']].etempo(i['a'] / i['b'])
+                elif op == 'TB':
+                    self.clocks[i['c']].beats = i['a'] / TU
                 elif op == 'E':
                     raise RuntimeError('scripted failure in ' + name)
                 elif op == 'X':
